@@ -51,6 +51,8 @@ mod header_ex;
 pub(crate) use self::header_ex::verif_hooks as hx_verif_hooks;
 pub(crate) mod header_session;
 mod shrex;
+#[cfg(eigerco_lumina_verif)]
+pub(crate) use shrex::pool_tracker_verif_hooks;
 pub(crate) mod shwap;
 mod swarm;
 mod swarm_manager;
